@@ -61,7 +61,8 @@ class G:
             return False
         if prob >= 1:
             return True
-        # (bounded integers are close to uniform in Hypothesis; floats(0,1) are heavily biased towards 0)
+        # (Hypothesis favours small draws: measured, coin(0.12) comes up about 0.2-0.4 and coin(0.5) about 0.7; the nominal probabilities
+        # in this file are therefore lower bounds for how often a feature appears - floats(0,1) would be far more biased still)
         return self.draw(st.integers(1, 1000)) <= int(round(prob * 1000))
 
     def pick(self, seq):
@@ -783,9 +784,23 @@ def model_specs(draw, profile=None):
             if g.coin(0.15):
                 ins["capacity"][q["name"]] = {"t": [ystart], "v": [g.fl(0.0, 2000.0)]}
                 g.labels.add("instr:capacity")
+                if g.coin(0.3):
+                    f = ystart + g.pick([0, 1, 2]) * dt
+                    ins["capacity"][q["name"]] = {"t": [f, f + g.pick([1, 2, 3]) * dt], "v": [g.fl(0.0, 2000.0), g.fl(0.0, 2000.0)]}
+                    g.labels.add("instr:capacity-time-varying")
             if g.coin(0.15):
                 ins["coverage"][q["name"]] = {"t": [ystart], "v": [g.fl(0.0, 1.2)]}
                 g.labels.add("instr:coverage")
+                if g.coin(0.3):
+                    f = ystart + g.pick([0, 1, 2]) * dt
+                    ins["coverage"][q["name"]] = {"t": [f, f + g.pick([1, 2, 3]) * dt], "v": [g.fl(0.0, 1.2), g.fl(0.0, 1.2)]}
+                    g.labels.add("instr:coverage-time-varying")
+        if plist and g.coin(0.03):
+            # a pure coverage scenario: every program has a coverage overwrite, at least one of them changing over time
+            for q in plist:
+                f = ystart + g.pick([0, 1]) * dt
+                ins["coverage"][q["name"]] = {"t": [f, f + g.pick([1, 2, 3]) * dt], "v": [g.fl(0.0, 1.0), g.fl(0.0, 1.0)]}
+            g.labels.add("instr:coverage-on-every-program")
         spec["instr"] = ins
         g.labels.add("has:programs")
     # ---- optional second population type (cross-type interaction and aggregation) ---------------------------------
